@@ -36,3 +36,54 @@ def reel_tail(**kw):
 
 def misc(typ, payload=b'some operator text'):
     return bytes([typ, 0]) + payload
+
+
+# ---------------------------------------------------------------- DFSR and frame data
+from . import repcodes as _rc
+
+
+def entry_block(typ, size, rc, value):
+    if size == 0:
+        return bytes([typ, 0, rc])
+    if rc == 66:
+        pay = bytes([value])
+    elif rc == 65:
+        pay = value
+    elif rc == 68:
+        pay = _rc.enc68(value)
+    elif rc == 73:
+        pay = struct.pack('>i', value)
+    elif rc == 79:
+        pay = struct.pack('>h', value)
+    else:
+        raise ValueError(rc)
+    assert len(pay) == size, (typ, size, rc, value)
+    return bytes([typ, size, rc]) + pay
+
+
+def dfsr(blocks, channels, iflr_type=0):
+    """blocks: dict entry type -> (size, rc, value); channels: list of dict(mnem, units, size, samples, rc).
+    Only the given entry blocks are written (a conformant DFSR need not carry them all), then the terminator."""
+    out = bytearray([64, 0])
+    blocks = dict(blocks)
+    blocks.setdefault(1, (1, 66, iflr_type))
+    total = 0
+    for t in sorted(blocks):
+        size, rc, val = blocks[t]
+        out += entry_block(t, size, rc, val)
+        total += size
+    # terminator sized so that the entry block set has even length
+    n = len(blocks) + 1
+    if (3 * n + total) % 2:
+        out += bytes([0, 1, 66, 0])
+    else:
+        out += bytes([0, 0, 66])
+    for c in channels:
+        out += struct.pack('>4s6s8s4sI2h3x2B5x', c['mnem'], b'SERVID', b'SERVORD1', c['units'], c.get('api', 0), 1,
+                           c['size'], c['samples'], c['rc'])
+    return bytes(out)
+
+
+def data_record(iflr_type, xbytes, frames):
+    """frames: list of bytes (one per frame)"""
+    return bytes([iflr_type, 0]) + xbytes + b''.join(frames)
